@@ -107,6 +107,7 @@ type End struct {
 	OnAfterOp  func()
 	CloseN     int
 	ReadCalls  int
+	BytesRead  int // bytes this end has taken off the connection
 	waiting    bool
 	curOp      int
 	lastReadOp int // index of the op served by the read in progress (one reader per end)
@@ -209,6 +210,7 @@ func (e *End) read(p []byte) (int, error) {
 	}
 	n := copy(p[:lim], e.q)
 	e.q = e.q[n:]
+	e.BytesRead += n
 	if e.Record {
 		e.Got = append(e.Got, p[:n]...)
 	}
